@@ -13,6 +13,7 @@
 (*   "truncated" a valid message cut in the middle of a field              *)
 (*   "corrupt"   bytes that are not protobuf                               *)
 (*   "dangling"  a symbolic link to nothing                                *)
+(*   "gzip"      a valid message, gzip-compressed: not a FeedMessage       *)
 (*                                                                         *)
 (* Operational layer: NewDirectoryGtfsrtSource lists and sorts; every      *)
 (* iteration of the loop in Next pops the first remaining name, and either *)
@@ -21,7 +22,7 @@
 (***************************************************************************)
 EXTENDS VCommon
 
-Kinds == {"good", "goodT", "goodR", "subdir", "vanish", "empty", "truncated", "corrupt", "dangling"}
+Kinds == {"good", "goodT", "goodR", "subdir", "vanish", "empty", "truncated", "corrupt", "dangling", "gzip"}
 (* "goodT": a good file whose header timestamp is the same for all such files; "goodR": a valid message whose    *)
 (* entities are serialised before its header (protobuf allows any field order)                                   *)
 IsGood(e) == e.kind \in {"good", "goodT", "goodR"}
